@@ -44,6 +44,19 @@ def load_variants():
             out.append({'id': 'neutral-' + os.path.basename(d), 'property': '*', 'patches': [os.path.join(os.path.basename(os.path.dirname(d)), os.path.basename(d), 'patch.diff')], 'expect': 'silent', '_src': 'neutral'})
     return out
 
+def load_known_limitations():
+    out = {}
+    p = os.path.join(VERIF, 'known_limitations.txt')
+    if os.path.exists(p):
+        for line in open(p):
+            line = line.strip()
+            if line and not line.startswith('#'):
+                k, _, why = line.partition(' ')
+                out[k] = why
+    return out
+
+KNOWN_LIMITATIONS = load_known_limitations()
+
 def run_one(v, repo, prop=None):
     d = tempfile.mkdtemp(prefix='samlvar.', dir=os.environ.get('VERIF_SCRATCH', '/tmp'))
     try:
@@ -75,6 +88,8 @@ def run_one(v, repo, prop=None):
         if v.get('expect') == 'silent':
             if p.returncode == 0 and not viol:
                 return v, 'silent-ok', 'neutral edit, no report'
+            if v['id'].replace('neutral-', '') in KNOWN_LIMITATIONS:
+                return v, 'known-limitation', KNOWN_LIMITATIONS[v['id'].replace('neutral-', '')][:200]
             return v, 'FALSE-ALARM', (viol[0] if viol else out.strip())[:300]
         if p.returncode == 1 and viol:
             if v.get('expect_rule') and not any(('rule=' + v['expect_rule']) in l for l in viol):
@@ -101,7 +116,7 @@ def main():
             res.append({'id': v['id'], 'property': a.property if v['property'] == '*' and a.property else v['property'], 'status': st, 'msg': msg})
             print(f"{st:10s} {v['property']} {v['id']}: {msg[:160]}")
     bad = [r for r in res if r['status'] in ('MISSED', 'invalid', 'wrong-rule', 'FALSE-ALARM')]
-    print(f"variants: {len(res)} run, {sum(r['status']=='caught' for r in res)} caught, {sum(r['status']=='skipped' for r in res)} skipped, {len(bad)} bad")
+    print(f"variants: {len(res)} run, {sum(r['status']=='caught' for r in res)} caught, {sum(r['status']=='skipped' for r in res)} skipped, {sum(r['status']=='known-limitation' for r in res)} known limitations, {len(bad)} bad")
     if a.json:
         json.dump(res, open(a.json, 'w'), indent=1)
     return 3 if bad else 0
